@@ -367,6 +367,26 @@ def run_property(prop, tier, seed, t0):
                 path = write_replay(prop, oid, dict(property=prop, contract=fid, obligation=oid, input=f["input"], observed=f["failures"]))
                 violations.append((oid, path, ""))
 
+    wit = []
+    for w in spec.get("witnesses", []):
+        p = subprocess.run([VENV_PY, os.path.join(ROOT, "checks", "witness.py"), w], capture_output=True, text=True,
+                           env=dict(os.environ, PYTHONDONTWRITEBYTECODE="1"), timeout=600)
+        try:
+            obs = json.loads(p.stdout.strip().splitlines()[-1])
+        except Exception:
+            errors.append("witness %s crashed: %s" % (w, (p.stderr or p.stdout)[-300:]))
+            continue
+        wit.append(obs)
+        _WITNESS[w] = p.returncode == 1
+        if p.returncode == 1:
+            kf = [k for k in known if (k.get("witness") or {}).get("scenario") == w]
+            if kf:
+                known_hit[kf[0]["id"]] = kf[0]
+            else:
+                path = write_replay(prop, "witness." + w, dict(property=prop, enum="witness.py", obligation="witness:" + w,
+                                                               witness=dict(scenario=w), observed=obs))
+                violations.append(("witness:" + w, path, ""))
+
     for script in spec.get("enum", []):
         e = run_enum(script, tier, seed)
         enums.append({k: v for k, v in e.items() if k != "failures"} | {"n_failures": len(e.get("failures", []))})
@@ -403,7 +423,7 @@ def run_property(prop, tier, seed, t0):
                                        obligations=len(f["obligations"])) for f in functions],
         extraction_drops="docstrings, comments, type annotations; decorators are modelled (staticmethod/classmethod/property by binding; show_result as identity); logging calls are dropped",
         by_backend=by_backend, solver_seconds=round(solver_seconds, 2),
-        undecided=undecided, bounded=bounded, enumerations=enums,
+        undecided=undecided, bounded=bounded, enumerations=enums, witnesses=wit,
         known_findings=[dict(id=k["id"], obligation=k["obligation"], what=k["what"]) for k in known_hit.values()],
         evaluations=max(evals, 1), distinct_nontrivial=max(sum(b["nontrivial"] for b in bounded) + sum(e.get("distinct", 0) for e in enums), 2) if evals else 2,
         rule="bounded: every argument tuple of the stated domain on which the precondition holds, each distinct by construction; enumerations: see each entry",
